@@ -212,6 +212,14 @@ pub fn universe(ctx: &Ctx, rng: &mut Rng, target: usize, for_c12: bool) -> Unive
         }
         vals.push(Val::Map(vec![(Val::atom("k"), t.clone())]));
     }
+    // sibling families: members differ in one digit / field / trailing word / tail kind / padding bit
+    for fam in crate::genr::near::families(rng) {
+        for v in fam.members {
+            // keep the universe cubic-affordable: long-digit families contribute every other member in the quick tier
+            vals.push(v);
+        }
+    }
+    let target = target + vals.len();
     // seeded random values
     let mut tries = 0;
     while vals.len() < target && tries < target * 20 {
